@@ -62,8 +62,8 @@ class Adapter(EnvAdapter):
         out = []
         for (n, v) in ((6, 2), (6, 3), (20, 2), (20, 3)):
             for rew in ("dense", "sparse"):
-                out.append(_c(f"c{n}v{v}_{rew}", n, v, rew, 32 if n == 6 else 16, full,
-                              probe_every=1 if n == 6 else 3, probe_cap=48 if n == 6 else 70))
+                out.append(_c(f"c{n}v{v}_{rew}", n, v, rew, 16 if n == 6 else 8, full,
+                              probe_every=1 if n == 6 else 4, probe_cap=40 if n == 6 else 60))
         return out
 
     def _build(self, ctor, rew):
